@@ -37,7 +37,7 @@ def sides(law, p, q, i1, i2):
 
 class C18(Prop):
     id = 'C18'
-    rule_added = '30% of the discrete online cases on objects that served another trace and were reset().'
+    rule_added = '30% of the discrete online cases on objects that served another trace and were reset(). Bounded-future laws also through pastify()+update() under sampling periods {1 s, 500 ms, 250 ms, 2 s, 4 s}.'
     rule = ('for each of the 8 stated laws, operands p,q are random formulas (depth<=3), bounds random, traces '
             '1..30 samples; both sides are evaluated by the same real monitor kind (discrete offline: all laws; '
             'discrete online: the past laws; dense offline: all but the s_prev/s_next expansions) and compared at '
